@@ -108,7 +108,8 @@ def audit_line(i):
             "addr=127.0.0.1 terminal=ssh res=success'\n" % (i % 1000, 30000 + i))
 
 
-CAUSES = ["sshd-eof", "audit-eof", "audit-malformed", "output-fails", "bad-login-pid", "sigterm", "sigint",
+CAUSES = ["sshd-eof", "audit-eof", "sshd-eof-partial", "audit-eof-partial", "audit-malformed", "audit-unknown-type",
+          "output-fails", "output-breaks-inflight", "bad-login-pid", "sigterm", "sigint",
           "sshd-not-fifo", "sshd-missing", "audit-not-fifo", "audit-missing"]
 
 
@@ -119,7 +120,7 @@ def scenarios():
             out.append((c, "unopened"))
             continue
         out.append((c, "idle"))
-        if c not in ("audit-eof",):
+        if c not in ("audit-eof", "audit-eof-partial", "output-breaks-inflight"):
             out.append((c, "flood"))
         if c in ("sigterm", "sigint"):
             out.append((c, "unopened"))
@@ -168,6 +169,11 @@ def run_daemon_scenario(ctx, binp, idx, cause, load):
         else:
             os.mkfifo(p)
     outpath = "/dev/full" if cause == "output-fails" else op
+    outreader = None
+    if cause == "output-breaks-inflight":
+        os.remove(op)
+        os.mkfifo(op)
+        outreader = os.open(op, os.O_RDONLY | os.O_NONBLOCK)
     env = dict(os.environ, NODE_NAME="verif-node")
     errf = open(os.path.join(d, "stderr.txt"), "w")
     argv = [binp, "--sshd-pipe-path", sp, "--auditd-pipe-path", ap, "--app-events-output", outpath]
@@ -231,6 +237,30 @@ def run_daemon_scenario(ctx, binp, idx, cause, load):
             os.close(sw); sw = None
         elif cause == "audit-eof":
             os.close(aw); aw = None
+        elif cause == "sshd-eof-partial":
+            os.write(sw, b"4242 Accepted password for bob from 10.0.0.1 po")
+            time.sleep(0.05)
+            os.close(sw); sw = None
+        elif cause == "audit-eof-partial":
+            os.write(aw, b"type=USER_START msg=audit(1668460768.196:30166): pid=25007 uid=0 auid=1000 ses=499 msg='op=PAM:sess")
+            time.sleep(0.05)
+            os.close(aw); aw = None
+        elif cause == "audit-unknown-type":
+            bad = b"type=FOOBAR msg=audit(1668460768.196:30166): pid=1 a=b\n"
+            if fl:
+                fl.inject = bad
+            else:
+                os.write(aw, bad)
+        elif cause == "output-breaks-inflight":
+            # the reader of the output (a FIFO here) goes away while events of a correlated session are in flight
+            os.write(sw, b"25007 Accepted password for bob from 10.0.0.1 port 22 ssh2\n")
+            os.write(aw, b"type=LOGIN msg=audit(1668460768.100:29999): pid=25007 uid=0 old-auid=4294967295 auid=1000 tty=(none) old-ses=4294967295 ses=499 res=1\n")
+            time.sleep(0.3)
+            if outreader is not None:
+                os.close(outreader); outreader = None
+            for k in range(4):   # unterminated groups stay in the reassembler; a complete one triggers the failing write
+                os.write(aw, ("type=SYSCALL msg=audit(1668460769.%03d:%d): arch=c000003e syscall=59 success=yes exit=0 a0=1 a1=2 a2=3 a3=4 items=0 ppid=1 pid=25010 auid=1000 uid=1000 gid=1000 euid=1000 suid=1000 fsuid=1000 egid=1000 sgid=1000 fsgid=1000 tty=pts3 ses=499 comm=\"x\" exe=\"/bin/x\" key=\"k\"\n" % (k, 30100 + k)).encode())
+            os.write(aw, audit_line(500).encode())
         elif cause == "audit-malformed":
             if fl:
                 fl.inject = b"this is not an audit record\n"
@@ -256,7 +286,7 @@ def run_daemon_scenario(ctx, binp, idx, cause, load):
         if proc.poll() is None:
             proc.kill()
             proc.wait()
-        for fd in (sw, aw):
+        for fd in (sw, aw, outreader):
             if fd is not None:
                 try:
                     os.close(fd)
